@@ -6,6 +6,7 @@ this is the algebraic simplification a compiler does in value numbering.
 """
 from __future__ import annotations
 import ast
+import re
 from fractions import Fraction
 from typing import Dict, List, Optional, Tuple, Set, FrozenSet, Callable
 from .model import FuncInfo, AnalysisError, ClassInfo
@@ -739,7 +740,7 @@ class Sym:
                     flat.extend(k[1])
                 else:
                     flat.append(k)
-            return (op, sorted(flat, key=cmp_key))
+            return _fold_abs(op, flat)
         if isinstance(e, ast.Compare):
             parts = []
             left = e.left
@@ -748,7 +749,7 @@ class Sym:
                 left = right
             if len(parts) == 1:
                 return parts[0]
-            return ("or" if neg else "and", sorted(parts, key=cmp_key))
+            return _fold_abs("or" if neg else "and", parts)
         if isinstance(e, ast.Call) and isinstance(e.func, ast.Name) and e.func.id in ("all", "any") and len(e.args) == 1 and isinstance(e.args[0], (ast.List, ast.Tuple)):
             kids = [self.cmp(v, at, depth + 1, neg) for v in e.args[0].elts]
             op = "and" if e.func.id == "all" else "or"
@@ -770,9 +771,9 @@ class Sym:
             pos = isinstance(op, ast.Is)
             a, b = sorted([self.canon(l, at, depth + 1), self.canon(r, at, depth + 1)])
             return ("is", a, b, pos != neg)
+        name = type(op).__name__
         pl = self.ev(l, at, depth + 1)
         pr = self.ev(r, at, depth + 1)
-        name = type(op).__name__
         # bring to  p OP 0
         if name in ("Lt", "LtE"):
             p, strict = pl - pr, name == "Lt"
@@ -790,7 +791,59 @@ class Sym:
             # not (p < 0)  ==  -p <= 0 (for non-NaN), true for NaN
             p, strict = -p, not strict
             nan_true = True
+        if _integer_valued(p):
+            # over the integers  p < 0  is  p + 1 <= 0  (an index `i - 1 >= 0` is `i > 0`); an integer is never NaN
+            if strict:
+                p, strict = p + Poly.const(1), False
+            nan_true = False
         return ("rel", "<" if strict else "<=", p.key(), nan_true, p)
+
+
+def _fold_abs(op: str, parts):
+    """and(x - e < 0, -x - e < 0) is |x| - e < 0 and or(e - x < 0, e + x < 0) is e - |x| < 0 (also for NaN and for e <= 0):
+    a two-sided bound is given the form the one-sided spelling `abs(x) < e` has. Only when x and e share no monomial
+    (so that `a <= t <= b` stays a conjunction)."""
+    parts = list(parts)
+    done = True
+    while done:
+        done = False
+        for i in range(len(parts)):
+            for j in range(i + 1, len(parts)):
+                a, b = parts[i], parts[j]
+                if a[0] != "rel" or b[0] != "rel" or a[1] != b[1] or a[1] not in ("<", "<=") or a[3] != b[3] or len(a) < 5 or len(b) < 5:
+                    continue
+                p1, p2 = a[4], b[4]
+                half = Poly.const(Fraction(1, 2))
+                x = (p1 - p2) * half
+                e_ = (p1 + p2) * half          # and: p = +-x + e_  with e_ = -e ; or: p = -+x + e_ with e_ = e
+                if not x.t or not e_.t or set(x.t) & set(e_.t) or x.is_const():
+                    continue
+                xs, _ = x.sign_normalised()
+                ab = Poly.atom(f"abs({xs.key()})")
+                newp = (ab + e_) if op == "and" else (e_ - ab)
+                parts[i] = ("rel", a[1], newp.key(), a[3], newp)
+                del parts[j]
+                done = True
+                break
+            if done:
+                break
+    if len(parts) == 1:
+        return parts[0]
+    return (op, sorted(parts, key=cmp_key))
+
+
+INT_ATOM = re.compile(r"^(bisect\.)?bisect(_left|_right)?\(|^len\(|^int\(|^(np|numpy)\.searchsorted\(|\.(index|count|get_loc|searchsorted)\([^()]*\)$|^item#\d+∈unpack\(enumerate\(|^item∈range\(")
+
+
+def _integer_valued(p: "Poly") -> bool:
+    """Every coefficient is an integer and every atom is the result of an integer-valued call (bisect, len, int, searchsorted,
+    list.index, an enumerate counter, a range item); a constant alone does not count (nothing to normalise)."""
+    atoms = p.atoms()
+    if not atoms:
+        return False
+    if any(c.denominator != 1 for c in p.t.values()):
+        return False
+    return all(INT_ATOM.search(a) is not None for a in atoms)
 
 
 def _paren(s: str) -> str:
